@@ -61,13 +61,15 @@ def parseRaise (s : String) (code : Option Int) : Option Raise :=
   | "foreign", none => some .foreign
   | _, _ => none
 
-def parseOneFault (s : String) : Option (Stage × Raise) :=
+def parseOneFault (s : String) : Option (Stage × Beh) :=
   match s.splitOn ":" with
-  | [st, r] => do let st ← parseStage st; let r ← parseRaise r none; pure (st, r)
-  | [st, r, c] => do let st ← parseStage st; let c ← c.toInt?; let r ← parseRaise r (some c); pure (st, r)
+  | [st, "abort"] => do let st ← parseStage st; pure (st, .aborts)
+  | [st, "hang"] => do let st ← parseStage st; pure (st, .hangs)
+  | [st, r] => do let st ← parseStage st; let r ← parseRaise r none; pure (st, .raises r)
+  | [st, r, c] => do let st ← parseStage st; let c ← c.toInt?; let r ← parseRaise r (some c); pure (st, .raises r)
   | _ => none
 
-/-- `none` or a comma-separated list `stage:raise[:code]`: what the environment does at the abstract stages
+/-- `none` or a comma-separated list `stage:raise[:code]` | `stage:abort` | `stage:hang`: what the environment does at the abstract stages
 (any number of entries, any order) -/
 def parseFault (s : String) : Option Behaviours :=
   if s == "none" then some [] else allSome ((s.splitOn ",").map parseOneFault)
